@@ -17,8 +17,8 @@ P = {
          "trusted: Str/Value mirrors with byte-content equality and lexicographic order; default Props::get (closure capturing &mut) is an external_body stub under the trait contract; Dedup::for_each, std maps, dyn ErasedProps, thread-local frames, macro expansion not covered",
          "contract-based deductive verification (Verus on mechanically extracted functions, ghost call traces)", "8 C02"),
  "C03": (True, "proof",
-         "frame layer only: Kani proves on the real Frame/FrameFuture/Ctxt forwarders (oracle context logging every operation) enter-scope-exit-close exactly once in order for call/enter/with/poll, default open_push/open_disabled, and the erased context paths incl. ErasedFrame inline and boxed storage; Verus proves the stack-discipline lemma over the swap contract",
-         "NOT covered (stated): that ThreadLocalCtxt meets the swap contract (thread_local with destructor: Kani ICE, no Verus model), thread/task isolation, panic unwinding",
+         "Kani proves on the real Frame/FrameFuture/Ctxt forwarders (oracle context logging every operation) enter-scope-exit-close exactly once in order for call/enter/with/poll, default open_push/open_disabled, that every forwarding / erased context dispatches open_root/open_push/open_disabled to the same method, and the erased paths incl. ErasedFrame inline and boxed storage; Verus proves on the real thread_local_ctxt.rs (thread-local as a ghost map, R15) that current/swap/enter/exit meet the swap contract, open_root = own props first-wins, open_push = own over what was current, and the stack-discipline lemma over that contract",
+         "NOT covered (stated): isolation between threads (std thread_local!), panic unwinding (two seeded changes that drop the RAII guard are missed), RefCell re-entrancy; HashMap/Entry/Arc::make_mut by assumed specs",
          "contract-based deductive verification (Kani oracle-context contracts; Verus lemma over the swap contract)", "8 C03"),
  "C04": (True, "proof",
          "Verus proves on the real SpanCtxt::current/new_child/new_root, TraceId/SpanId::random, Props for SpanCtxt and SpanGuard::new/push_ctxt: child ids (trace inherited, parent = enclosing span id), filter shown the span event with ids, exactly one Frame::push iff enabled else exactly one Frame::disabled, is_enabled == verdict; read-back lemma",
@@ -70,7 +70,7 @@ P = {
          "Verus proves MinLevelFilter::matches == (pulled level, else default, else L::default) >= min; the lenient level parser Ok <=> lenient_match for inputs of any length; and for MinLevelPathMap the representation invariant, lookup == filter of the longest registered prefix at :: boundaries (else default, else accept), and insert == view.insert(path, filter) INCLUDING the frame (no other path changes) through the real looping &mut cursor, with lemmas for registration order, repeated registration and sibling prefixes",
          "trusted: Path::segments as a Vec of segments, binary_search_by_key by its std contract on a sorted slice, Str/Event/Props mirrors, lawful Ord",
          "contract-based deductive verification (Verus, wand-style prophecy invariant)", "8 C17"),
- "C05": (True, "proof", "Kani proves each SpanGuard operation contract from an arbitrary abstract pre-state (induction over operation sequences), loop-free over full-domain symbolic inputs, on the real crate", "trusted: CBMC/Kani; panic unwinding not modelled (panic=abort); macro expansion of #[span] not covered", "contract-based deductive verification (Kani per-operation contracts from symbolic pre-states; Verus for completion event shape)", "8 C05"),
+ "C05": (True, "proof", "Kani proves each SpanGuard operation contract from an arbitrary abstract pre-state (induction over operation sequences), loop-free over full-domain symbolic inputs, on the real crate, plus Timer::start/extent; Verus proves the completion paths (completion::Default builders and complete incl. the panicking branch, the three macro completions): exactly one emit_core::emit with the runtime's emitter and ctxt, lvl/err ahead of the span's props, template override; Span::for_each order (kind, name, then props)", "trusted: CBMC/Kani; panic unwinding not modelled (panic=abort); macro expansion of #[span] not covered", "contract-based deductive verification (Kani per-operation contracts from symbolic pre-states; Verus for completion event shape)", "8 C05"),
  "C16": (True, "proof",
          "Verus proves on the real Template::eq (extracted each run, no statement replaced) that it is total and returns exactly equality of the canonical token sequences, "
          "and on the real Part::write / Render::write the exact sequence of writer calls (text verbatim; hole = first-wins property value through the formatter if any, else {label}; stop at first error)",
